@@ -80,7 +80,7 @@ func (a *analyzer) run(pass *analysis.Pass) (any, error) {
 
 				st, ok := ts.Type.(*ast.StructType)
 				if !ok {
-					return
+					continue
 				}
 
 				collectStructMarkers(pass, st, results)
